@@ -1560,8 +1560,11 @@ func runR46(c *Ctx) {
 	}
 	key := fname(fn) + "|constant not among declared values"
 	// (1) a branch on the strict flag whose true edge returns a non-nil error
-	var strictIf *ssa.If
-	strictTrue := 0
+	type strictBranch struct {
+		iff *ssa.If
+		ti  int
+	}
+	var allStrict, strictIfs []strictBranch
 	eachInstr(fn, func(in ssa.Instruction) {
 		iff, ok := in.(*ssa.If)
 		if !ok {
@@ -1575,12 +1578,13 @@ func runR46(c *Ctx) {
 		if !val {
 			ti = 1
 		}
+		allStrict = append(allStrict, strictBranch{iff, ti})
 		tb := iff.Block().Succs[ti]
 		if ret, ok := tb.Instrs[len(tb.Instrs)-1].(*ssa.Return); ok && !returnsNilError(ret) {
-			strictIf, strictTrue = iff, ti
+			strictIfs = append(strictIfs, strictBranch{iff, ti})
 		}
 	})
-	if strictIf == nil {
+	if len(strictIfs) == 0 {
 		c.bad(key, p.pos(fn.Pos()), "no branch on the column's strict flag returns an error: filtering a strict (declared) enum against an undeclared value is silently accepted")
 		return
 	}
@@ -1596,15 +1600,87 @@ func runR46(c *Ctx) {
 		if !ok || !boolIdxBase(ia.X) {
 			return
 		}
-		if !edgeDominates(strictIf.Block(), 1-strictTrue, st.Block()) {
+		okSt := false
+		for _, sb := range strictIfs {
+			if edgeDominates(sb.iff.Block(), 1-sb.ti, st.Block()) {
+				okSt = true
+			}
+		}
+		if !okSt {
 			bad = p.instrPos(st)
 		}
 	})
 	if bad != "" {
-		c.bad(key, p.instrPos(strictIf), fmt.Sprintf("the boolean index is written at %s on a path that has not passed the strict test: for a strict enum an undeclared filter value selects rows instead of being an error", bad))
+		c.bad(key, p.instrPos(strictIfs[0].iff), fmt.Sprintf("the boolean index is written at %s on a path that has not passed the strict test: for a strict enum an undeclared filter value selects rows instead of being an error", bad))
 	} else {
-		c.ok(key, p.instrPos(strictIf), "strict columns return an error when the filter constant is not a declared value, before any row is marked")
+		c.ok(key, p.instrPos(strictIfs[0].iff), "strict columns return an error when the filter constant is not a declared value, before any row is marked")
 	}
+	// (3) value lists (`in`): the case that receives a []string of constants consults the strict flag too - on
+	// every path of that case that can report success a branch on strict lies behind, and its strict side can
+	// end in an error. A list naming an undeclared value is an undeclared constant like any other.
+	eachInstr(fn, func(in ssa.Instruction) {
+		ta, ok := in.(*ssa.TypeAssert)
+		if !ok {
+			return
+		}
+		sl, ok := ta.AssertedType.Underlying().(*types.Slice)
+		if !ok {
+			return
+		}
+		if bt, ok := sl.Elem().Underlying().(*types.Basic); !ok || bt.Kind() != types.String {
+			return
+		}
+		// the ok edge
+		var okIf *ssa.If
+		for _, r := range *ta.Referrers() {
+			if ex, ok := r.(*ssa.Extract); ok && ex.Index == 1 {
+				for _, r2 := range *ex.Referrers() {
+					if iff, ok := r2.(*ssa.If); ok {
+						okIf = iff
+					}
+				}
+			}
+		}
+		if okIf == nil {
+			return
+		}
+		lkey := fname(fn) + "|value list against declared values"
+		region := func(b *ssa.BasicBlock) bool { return edgeDominates(okIf.Block(), 0, b) }
+		problem := ""
+		for _, blk := range fn.Blocks {
+			if !region(blk) || len(blk.Instrs) == 0 {
+				continue
+			}
+			ret, ok := blk.Instrs[len(blk.Instrs)-1].(*ssa.Return)
+			if !ok || !returnsNilError(ret) {
+				continue
+			}
+			consulted := false
+			for _, sb := range allStrict {
+				sbBlk := sb.iff.Block()
+				if !region(sbBlk) || !sbBlk.Dominates(blk) {
+					continue
+				}
+				// the strict side reaches a non-nil error return
+				for _, rb := range reachableAvoiding(sbBlk.Succs[sb.ti], func(x *ssa.BasicBlock) bool { return !region(x) }) {
+					if len(rb.Instrs) == 0 {
+						continue
+					}
+					if r2, ok := rb.Instrs[len(rb.Instrs)-1].(*ssa.Return); ok && !returnsNilError(r2) {
+						consulted = true
+					}
+				}
+			}
+			if !consulted {
+				problem = p.instrPos(ret)
+			}
+		}
+		if problem != "" {
+			c.bad(lkey, p.instrPos(ta), fmt.Sprintf("the case that filters against a list of string constants reports success at %s without ever consulting the strict flag: for an enum with declared values a list naming an undeclared value (in [\"medium\"]) selects no row instead of being an error", problem))
+		} else {
+			c.ok(lkey, p.instrPos(ta), "the value-list case consults the strict flag and can end in an error before reporting success")
+		}
+	})
 }
 
 // ---------- R18 ----------
